@@ -719,7 +719,24 @@ impl ChipModel for Sx127xChip {
         if let Some(m) = self.pending.take() {
             self.complete(m);
         }
-        self.regs[0x12] & !self.regs[0x11] != 0
+        // the host watches DIO0 and DIO1 (GenericSx127xInterfaceVariant with its secondary interrupt pin): an unmasked
+        // flag reaches it only through the event RegDioMapping1 routes to one of those pins (datasheet table 18:
+        // DIO0 00 RxDone / 01 TxDone / 10 CadDone; DIO1 00 RxTimeout / 01 FhssChangeChannel / 10 CadDetected)
+        let flags = self.regs[0x12] & !self.regs[0x11];
+        let map = self.regs[0x40];
+        let dio0 = match map >> 6 {
+            0 => 0x40,
+            1 => 0x08,
+            2 => 0x04,
+            _ => 0,
+        };
+        let dio1 = match (map >> 4) & 3 {
+            0 => 0x80,
+            1 => 0x02,
+            2 => 0x01,
+            _ => 0,
+        };
+        flags & (dio0 | dio1) != 0
     }
     fn as_any(&mut self) -> &mut dyn std::any::Any {
         self
